@@ -31,6 +31,8 @@ pub enum Wl {
     W9,
     /// long transfer (40 kB) that the receiver stops early
     W10,
+    /// two short streams whose FIN is sent later than the data, in a frame of its own
+    W11,
 }
 
 pub fn plans(w: Wl, read: ReadMode) -> (Plan, Plan) {
@@ -63,6 +65,13 @@ pub fn plans(w: Wl, read: ReadMode) -> (Plan, Plan) {
             s.datagrams = vec![20, 900];
         }
         Wl::W6 => c.streams = vec![uni(60_000, 8000)],
+        Wl::W11 => {
+            c.streams = vec![
+                StreamPlan { dir: Dir::Uni, len: 2600, chunk: 1300, end: End::FinishLater(2) },
+                StreamPlan { dir: Dir::Bi, len: 1500, chunk: 1500, end: End::FinishLater(1) },
+            ];
+            s.echo_len = Some(900);
+        }
         Wl::W10 => {
             c.streams = vec![uni(40_000, 4000)];
             s.stop = Some((0, 2500, 55));
@@ -525,6 +534,7 @@ pub fn wl_from_str(s: &str) -> Wl {
         "W8" => Wl::W8,
         "W9" => Wl::W9,
         "W10" => Wl::W10,
+        "W11" => Wl::W11,
         _ => crate::report::machinery(&format!("unknown workload {s}")),
     }
 }
